@@ -17,4 +17,1517 @@ structure FLInv (f : FL) : Prop where
   pending_keys : (f.pending.map (·.1)).Nodup
   pending_ge2 : ∀ q ∈ f.pendingIds, 2 ≤ q
 
+/-- `omega` after unfolding the `Pgid`/`Txid` abbreviations (omega only sees literal `Nat`). -/
+macro "fomega" : tactic => `(tactic| ((try simp only [Pgid, Txid] at *); omega))
+
+/-! ### sorted lists: `insertSorted`, `sortNat`, `mergeSorted` -/
+
+theorem sorted_lt_iff {l : List Nat} :
+    l.Pairwise (· < ·) ↔ l.Pairwise (· ≤ ·) ∧ l.Nodup := by
+  constructor
+  · intro h
+    exact ⟨h.imp (fun h => Nat.le_of_lt h), h.imp (fun h => Nat.ne_of_lt h)⟩
+  · rintro ⟨h1, h2⟩
+    exact (h1.and h2).imp (fun ⟨a, b⟩ => Nat.lt_of_le_of_ne a b)
+
+theorem insertSorted_perm (x : Nat) (l : List Nat) : (insertSorted x l).Perm (x :: l) := by
+  induction l with
+  | nil => simp [insertSorted]
+  | cons y ys ih =>
+    simp only [insertSorted]
+    split
+    · exact List.Perm.refl _
+    · exact (List.Perm.cons y ih).trans (List.Perm.swap x y ys)
+
+theorem mem_insertSorted {x q : Nat} {l : List Nat} : q ∈ insertSorted x l ↔ q = x ∨ q ∈ l := by
+  rw [(insertSorted_perm x l).mem_iff]; simp
+
+theorem insertSorted_sorted {x : Nat} {l : List Nat} (h : l.Pairwise (· ≤ ·)) :
+    (insertSorted x l).Pairwise (· ≤ ·) := by
+  induction l with
+  | nil => simp [insertSorted]
+  | cons y ys ih =>
+    simp only [insertSorted]
+    split
+    · rename_i hxy
+      rw [List.pairwise_cons] at h ⊢
+      refine ⟨?_, List.pairwise_cons.mpr h⟩
+      intro a ha
+      rcases List.mem_cons.mp ha with rfl | ha
+      · exact hxy
+      · exact Nat.le_trans hxy (h.1 a ha)
+    · rename_i hxy
+      rw [List.pairwise_cons] at h ⊢
+      refine ⟨?_, ih h.2⟩
+      intro a ha
+      rcases mem_insertSorted.mp ha with rfl | ha
+      · omega
+      · exact h.1 a ha
+
+theorem sortNat_perm (l : List Nat) : (sortNat l).Perm l := by
+  induction l with
+  | nil => exact List.Perm.refl _
+  | cons x xs ih =>
+    show (insertSorted x (sortNat xs)).Perm (x :: xs)
+    exact (insertSorted_perm x _).trans (List.Perm.cons x ih)
+
+theorem mem_sortNat {q : Nat} {l : List Nat} : q ∈ sortNat l ↔ q ∈ l := (sortNat_perm l).mem_iff
+
+theorem length_sortNat (l : List Nat) : (sortNat l).length = l.length := (sortNat_perm l).length_eq
+
+theorem sortNat_sorted (l : List Nat) : (sortNat l).Pairwise (· ≤ ·) := by
+  induction l with
+  | nil => exact List.Pairwise.nil
+  | cons x xs ih => exact insertSorted_sorted ih
+
+theorem sortNat_sorted_lt {l : List Nat} (h : l.Nodup) : (sortNat l).Pairwise (· < ·) :=
+  sorted_lt_iff.mpr ⟨sortNat_sorted l, (sortNat_perm l).nodup_iff.mpr h⟩
+
+theorem insertSorted_of_le {x : Nat} {l : List Nat} (h : ∀ y ∈ l, x ≤ y) :
+    insertSorted x l = x :: l := by
+  cases l with
+  | nil => rfl
+  | cons y ys => simp [insertSorted, h y (List.mem_cons_self)]
+
+theorem sortNat_of_sorted {l : List Nat} (h : l.Pairwise (· ≤ ·)) : sortNat l = l := by
+  induction l with
+  | nil => rfl
+  | cons x xs ih =>
+    rw [List.pairwise_cons] at h
+    show insertSorted x (sortNat xs) = x :: xs
+    rw [ih h.2, insertSorted_of_le h.1]
+
+@[simp] theorem sortNat_nil : sortNat [] = [] := rfl
+
+@[simp] theorem mergeSorted_nil_right (a : List Nat) : mergeSorted a [] = a := by
+  cases a <;> simp [mergeSorted]
+
+@[simp] theorem mergeSorted_nil_left (b : List Nat) : mergeSorted [] b = b := by
+  simp [mergeSorted]
+
+theorem mergeSorted_perm (a b : List Nat) : (mergeSorted a b).Perm (a ++ b) := by
+  fun_induction mergeSorted a b with
+  | case1 b => simp
+  | case2 a h => simp
+  | case3 x a y b hxy ih =>
+    exact List.Perm.cons x ih
+  | case4 x a y b hxy ih =>
+    refine (List.Perm.cons y ih).trans ?_
+    exact (List.perm_middle (a := y) (l₁ := x :: a) (l₂ := b)).symm
+
+theorem mem_mergeSorted {q : Nat} {a b : List Nat} : q ∈ mergeSorted a b ↔ q ∈ a ∨ q ∈ b := by
+  rw [(mergeSorted_perm a b).mem_iff]; simp
+
+theorem length_mergeSorted (a b : List Nat) : (mergeSorted a b).length = a.length + b.length := by
+  rw [(mergeSorted_perm a b).length_eq]; simp
+
+theorem mergeSorted_sorted {a b : List Nat} (ha : a.Pairwise (· ≤ ·)) (hb : b.Pairwise (· ≤ ·)) :
+    (mergeSorted a b).Pairwise (· ≤ ·) := by
+  fun_induction mergeSorted a b with
+  | case1 b => exact hb
+  | case2 a h => exact ha
+  | case3 x a y b hxy ih =>
+    rw [List.pairwise_cons] at ha ⊢
+    refine ⟨?_, ih ha.2 hb⟩
+    intro q hq
+    rcases mem_mergeSorted.mp hq with hq | hq
+    · exact ha.1 q hq
+    · rw [List.pairwise_cons] at hb
+      rcases List.mem_cons.mp hq with rfl | hq
+      · exact hxy
+      · exact Nat.le_trans hxy (hb.1 q hq)
+  | case4 x a y b hxy ih =>
+    rw [List.pairwise_cons] at hb ⊢
+    refine ⟨?_, ih ha hb.2⟩
+    intro q hq
+    rcases mem_mergeSorted.mp hq with hq | hq
+    · rw [List.pairwise_cons] at ha
+      rcases List.mem_cons.mp hq with rfl | hq
+      · omega
+      · have := ha.1 q hq; omega
+    · exact hb.1 q hq
+
+theorem mergeSorted_sorted_lt {a b : List Nat} (ha : a.Pairwise (· < ·)) (hb : b.Pairwise (· < ·))
+    (hd : ∀ q ∈ a, q ∉ b) : (mergeSorted a b).Pairwise (· < ·) := by
+  rw [sorted_lt_iff] at ha hb ⊢
+  refine ⟨mergeSorted_sorted ha.1 hb.1, ?_⟩
+  rw [(mergeSorted_perm a b).nodup_iff, List.nodup_append]
+  exact ⟨ha.2, hb.2, fun x hx y hy hxy => hd x hx (hxy ▸ hy)⟩
+
+/-- Two strictly sorted lists with the same members are equal. -/
+theorem sorted_ext {a b : List Nat} (ha : a.Pairwise (· < ·)) (hb : b.Pairwise (· < ·))
+    (h : ∀ q, q ∈ a ↔ q ∈ b) : a = b := by
+  induction a generalizing b with
+  | nil =>
+    cases b with
+    | nil => rfl
+    | cons y ys => exact absurd ((h y).mpr List.mem_cons_self) (by simp)
+  | cons x xs ih =>
+    cases b with
+    | nil => exact absurd ((h x).mp List.mem_cons_self) (by simp)
+    | cons y ys =>
+      rw [List.pairwise_cons] at ha hb
+      have hxy : x = y := by
+        have h1 := (h x).mp List.mem_cons_self
+        have h2 := (h y).mpr List.mem_cons_self
+        rcases List.mem_cons.mp h1 with h1 | h1
+        · exact h1
+        · rcases List.mem_cons.mp h2 with h2 | h2
+          · exact h2.symm
+          · have := ha.1 y h2; have := hb.1 x h1; omega
+      subst hxy
+      congr 1
+      apply ih ha.2 hb.2
+      intro q
+      constructor
+      · intro hq
+        have := (h q).mp (List.mem_cons_of_mem _ hq)
+        rcases List.mem_cons.mp this with rfl | h3
+        · have := ha.1 q hq; omega
+        · exact h3
+      · intro hq
+        have := (h q).mpr (List.mem_cons_of_mem _ hq)
+        rcases List.mem_cons.mp this with rfl | h3
+        · have := hb.1 q hq; omega
+        · exact h3
+
+theorem isSorted_of_pairwise {l : List Nat} (h : l.Pairwise (· ≤ ·)) : isSorted l = true := by
+  induction l with
+  | nil => rfl
+  | cons x xs ih =>
+    cases xs with
+    | nil => rfl
+    | cons y ys =>
+      rw [List.pairwise_cons] at h
+      simp only [isSorted, Bool.and_eq_true, decide_eq_true_eq]
+      exact ⟨h.1 y List.mem_cons_self, ih h.2⟩
+
+/-! ### spans -/
+
+theorem mem_expandSpan {q : Nat} {s : Pgid × Nat} : q ∈ expandSpan s ↔ s.1 ≤ q ∧ q < s.1 + s.2 := by
+  simp only [expandSpan, List.mem_map, List.mem_range]
+  constructor
+  · rintro ⟨a, h1, rfl⟩; fomega
+  · intro h; exact ⟨q - s.1, by fomega, by fomega⟩
+
+theorem mem_spanIds {q : Nat} {spans : List (Pgid × Nat)} :
+    q ∈ spanIds spans ↔ ∃ s ∈ spans, s.1 ≤ q ∧ q < s.1 + s.2 := by
+  simp only [spanIds, List.mem_flatMap, mem_expandSpan]
+
+theorem expandSpan_sorted (s : Pgid × Nat) : (expandSpan s).Pairwise (· < ·) := by
+  simp only [expandSpan, List.pairwise_map]
+  exact List.pairwise_lt_range.imp (fun h => by fomega)
+
+theorem expandSpan_succ (a n : Nat) : expandSpan (a, n + 1) = expandSpan (a, n) ++ [a + n] := by
+  simp [expandSpan, List.range_succ]
+
+@[simp] theorem spanIds_nil : spanIds [] = [] := rfl
+
+theorem spanIds_cons (s : Pgid × Nat) (ts : List (Pgid × Nat)) :
+    spanIds (s :: ts) = expandSpan s ++ spanIds ts := by
+  simp [spanIds]
+
+theorem spanIds_sorted {spans : List (Pgid × Nat)} (h : SpansWF spans) :
+    (spanIds spans).Pairwise (· < ·) := by
+  unfold spanIds
+  rw [List.pairwise_flatMap]
+  refine ⟨fun a _ => expandSpan_sorted a, h.2.imp ?_⟩
+  intro a b hab x hx y hy
+  rw [mem_expandSpan] at hx hy
+  fomega
+
+/-- Distinct well-formed spans are separated by a gap. -/
+theorem SpansWF.sep {spans : List (Pgid × Nat)} (h : SpansWF spans) {s t : Pgid × Nat}
+    (hs : s ∈ spans) (ht : t ∈ spans) : s = t ∨ s.1 + s.2 < t.1 ∨ t.1 + t.2 < s.1 := by
+  have hp := h.2
+  clear h
+  induction spans with
+  | nil => cases hs
+  | cons u us ih =>
+    rw [List.pairwise_cons] at hp
+    rcases List.mem_cons.mp hs with hs' | hs' <;> rcases List.mem_cons.mp ht with ht' | ht'
+    · exact Or.inl (hs'.trans ht'.symm)
+    · subst hs'; exact Or.inr (Or.inl (hp.1 t ht'))
+    · subst ht'; exact Or.inr (Or.inr (hp.1 s hs'))
+    · exact ih hs' ht' hp.2
+
+theorem SpansWF.eq_of_start {spans : List (Pgid × Nat)} (h : SpansWF spans) {s t : Pgid × Nat}
+    (hs : s ∈ spans) (ht : t ∈ spans) (he : s.1 = t.1) : s = t := by
+  rcases h.sep hs ht with h1 | h1 | h1
+  · exact h1
+  · have := (h.1 s hs).1; fomega
+  · have := (h.1 t ht).1; fomega
+
+theorem SpansWF.ge2 {spans : List (Pgid × Nat)} (h : SpansWF spans) {q : Nat}
+    (hq : q ∈ spanIds spans) : 2 ≤ q := by
+  obtain ⟨s, hs, h1, _⟩ := mem_spanIds.mp hq
+  have := (h.1 s hs).2; fomega
+
+theorem SpansWF.filter {spans : List (Pgid × Nat)} (h : SpansWF spans) (p : Pgid × Nat → Bool) :
+    SpansWF (spans.filter p) :=
+  ⟨fun s hs => h.1 s (List.mem_filter.mp hs).1, h.2.filter p⟩
+
+theorem SpansWF.nil : SpansWF [] := ⟨fun _ h => (by cases h), List.Pairwise.nil⟩
+
+theorem mem_insertSpan {s t : Pgid × Nat} {ts : List (Pgid × Nat)} :
+    t ∈ insertSpan s ts ↔ t = s ∨ t ∈ ts := by
+  induction ts with
+  | nil => simp [insertSpan]
+  | cons u us ih =>
+    simp only [insertSpan]
+    split
+    · simp
+    · simp only [List.mem_cons, ih]
+      constructor
+      · rintro (h | h | h) <;> simp [h]
+      · rintro (h | h | h) <;> simp [h]
+
+theorem SpansWF.insertSpan {ts : List (Pgid × Nat)} (h : SpansWF ts) {s : Pgid × Nat}
+    (hpos : 0 < s.2) (hge : 2 ≤ s.1)
+    (hsep : ∀ t ∈ ts, t.1 + t.2 < s.1 ∨ s.1 + s.2 < t.1) : SpansWF (insertSpan s ts) := by
+  refine ⟨?_, ?_⟩
+  · intro t ht
+    rcases mem_insertSpan.mp ht with rfl | ht
+    · exact ⟨hpos, hge⟩
+    · exact h.1 t ht
+  · obtain ⟨hwf, hp⟩ := h
+    induction ts with
+    | nil => simp [Bolt.FL.insertSpan]
+    | cons u us ih =>
+      rw [List.pairwise_cons] at hp
+      simp only [Bolt.FL.insertSpan]
+      split
+      · rename_i hle
+        rw [List.pairwise_cons]
+        refine ⟨?_, List.pairwise_cons.mpr hp⟩
+        intro t ht
+        have hu := hsep u List.mem_cons_self
+        have hup := (hwf u List.mem_cons_self).1
+        rcases List.mem_cons.mp ht with rfl | ht
+        · fomega
+        · have h1 := hp.1 t ht
+          have h2 := hsep t (List.mem_cons_of_mem _ ht)
+          have h3 := (hwf t (List.mem_cons_of_mem _ ht)).1
+          fomega
+      · rename_i hle
+        rw [List.pairwise_cons]
+        refine ⟨?_, ih (fun t ht => hsep t (List.mem_cons_of_mem _ ht))
+                        (fun t ht => hwf t (List.mem_cons_of_mem _ ht)) hp.2⟩
+        intro t ht
+        rcases mem_insertSpan.mp ht with rfl | ht
+        · have hu := hsep u List.mem_cons_self
+          fomega
+        · exact hp.1 t ht
+
+theorem mem_spanIds_insertSpan {q : Nat} {s : Pgid × Nat} {ts : List (Pgid × Nat)} :
+    q ∈ spanIds (insertSpan s ts) ↔ (s.1 ≤ q ∧ q < s.1 + s.2) ∨ q ∈ spanIds ts := by
+  simp only [mem_spanIds, mem_insertSpan]
+  constructor
+  · rintro ⟨t, rfl | ht, h⟩
+    · exact Or.inl h
+    · exact Or.inr ⟨t, ht, h⟩
+  · rintro (h | ⟨t, ht, h⟩)
+    · exact ⟨s, Or.inl rfl, h⟩
+    · exact ⟨t, Or.inr ht, h⟩
+
+/-! ### `spansOfSorted` round trip -/
+
+theorem spanIds_spansOfSorted_go (start size : Nat) (ys : List Nat)
+    (hs : ys.Pairwise (· < ·)) (hge : ∀ y ∈ ys, start + size ≤ y) :
+    spanIds (spansOfSorted.go start size ys) = expandSpan (start, size) ++ ys := by
+  fun_induction spansOfSorted.go start size ys with
+  | case1 start size => simp [spanIds_cons]
+  | case2 start size ys ih =>
+    rw [List.pairwise_cons] at hs
+    rw [ih hs.2, expandSpan_succ]
+    · simp
+    · intro z hz
+      have := hs.1 z hz
+      fomega
+  | case3 start size y ys hy ih =>
+    rw [List.pairwise_cons] at hs
+    rw [spanIds_cons, ih hs.2]
+    · simp [expandSpan, List.range_succ]
+    · intro z hz
+      have := hs.1 z hz
+      fomega
+
+theorem spanIds_spansOfSorted {l : List Nat} (h : l.Pairwise (· < ·)) :
+    spanIds (spansOfSorted l) = l := by
+  cases l with
+  | nil => rfl
+  | cons x xs =>
+    rw [List.pairwise_cons] at h
+    simp only [spansOfSorted]
+    rw [spanIds_spansOfSorted_go x 1 xs h.2]
+    · simp [expandSpan, List.range_succ]
+    · intro y hy
+      have := h.1 y hy
+      fomega
+
+/-! ### frame lemmas -/
+
+theorem freeIds_congr {f g : FL} (hk : g.kind = f.kind) (hi : g.ids = f.ids) (hs : g.spans = f.spans) :
+    g.freeIds = f.freeIds := by
+  simp only [FL.freeIds, hk, hi, hs]
+
+theorem pendingIds_congr {f g : FL} (hp : g.pending = f.pending) : g.pendingIds = f.pendingIds := by
+  simp only [FL.pendingIds, hp]
+
+theorem FLInv.congr {f g : FL} (h : FLInv f) (hk : g.kind = f.kind) (hi : g.ids = f.ids)
+    (hs : g.spans = f.spans) (hp : g.pending = f.pending) : FLInv g := by
+  have h1 := freeIds_congr hk hi hs
+  have h2 := pendingIds_congr hp
+  exact ⟨by rw [hk, hi]; exact h.array_sorted, by rw [hk, hs]; exact h.spans_wf,
+         by rw [h1, h2]; exact h.disjoint, by rw [h2]; exact h.pending_nodup,
+         by rw [hp]; exact h.pending_keys, by rw [h2]; exact h.pending_ge2⟩
+
+theorem FLInv.freeIds_sorted {f : FL} (h : FLInv f) : f.freeIds.Pairwise (· < ·) := by
+  unfold FL.freeIds
+  cases hk : f.kind with
+  | array => exact (h.array_sorted hk).1
+  | hashmap => exact spanIds_sorted (h.spans_wf hk)
+
+theorem FLInv.freeIds_ge2 {f : FL} (h : FLInv f) {q : Nat} (hq : q ∈ f.freeIds) : 2 ≤ q := by
+  unfold FL.freeIds at hq
+  cases hk : f.kind with
+  | array => rw [hk] at hq; exact (h.array_sorted hk).2 q hq
+  | hashmap => rw [hk] at hq; exact (h.spans_wf hk).ge2 hq
+
+/-! ### serialisation -/
+
+theorem length_copyall (f : FL) : f.copyall.length = f.count := by
+  simp [FL.copyall, FL.count, FL.freeCount, FL.pendingCount, length_mergeSorted, length_sortNat]
+
+theorem mem_copyall {f : FL} {q : Nat} : q ∈ f.copyall ↔ q ∈ f.freeIds ∨ q ∈ f.pendingIds := by
+  simp [FL.copyall, mem_mergeSorted, mem_sortNat]
+
+theorem copyall_sorted {f : FL} (h : FLInv f) : f.copyall.Pairwise (· < ·) := by
+  apply mergeSorted_sorted_lt h.freeIds_sorted (sortNat_sorted_lt h.pending_nodup)
+  intro q hq hq'
+  exact h.disjoint q hq (mem_sortNat.mp hq')
+
+theorem init_freeIds {ids : List Nat} (hs : ids.Pairwise (· < ·)) (f : FL) :
+    ∃ g, f.init ids = some g ∧ g.freeIds = ids ∧ g.pending = f.pending := by
+  unfold FL.init
+  cases hk : f.kind with
+  | array => exact ⟨_, rfl, by simp [FL.freeIds], rfl⟩
+  | hashmap =>
+    have : isSorted ids = true := isSorted_of_pairwise (sorted_lt_iff.mp hs).1
+    simp only [this, if_true]
+    exact ⟨_, rfl, by simp [FL.freeIds, spanIds_spansOfSorted hs], rfl⟩
+
+theorem pageIds_write (f : FL) : pageIds f.write.1 f.write.2 = f.copyall := by
+  have hl := length_copyall f
+  unfold FL.write
+  simp only []
+  split
+  · rename_i h0
+    have : f.copyall = [] := List.eq_nil_of_length_eq_zero (by omega)
+    simp [pageIds, this]
+  · split
+    · rename_i h0 h1
+      have hne : ¬ f.count = 0xFFFF := by omega
+      simp only [pageIds, hne, if_false]
+      rw [← hl]; exact List.take_length
+    · simp only [pageIds, if_true]
+      rw [← hl]; exact List.take_length
+
+/-! ### pending bookkeeping -/
+
+def pidsOf (pending : List (Txid × TxPending)) : List Pgid :=
+  pending.flatMap (fun p => p.2.ids.map (·.1))
+
+theorem pendingIds_eq (f : FL) : f.pendingIds = pidsOf f.pending := rfl
+
+@[simp] theorem pidsOf_nil : pidsOf [] = [] := rfl
+
+theorem pidsOf_cons (p : Txid × TxPending) (ps : List (Txid × TxPending)) :
+    pidsOf (p :: ps) = p.2.ids.map (·.1) ++ pidsOf ps := by
+  simp [pidsOf]
+
+theorem pidsOf_append (a b : List (Txid × TxPending)) : pidsOf (a ++ b) = pidsOf a ++ pidsOf b := by
+  simp [pidsOf]
+
+theorem mem_pidsOf {q : Nat} {pending : List (Txid × TxPending)} :
+    q ∈ pidsOf pending ↔ ∃ t txp a, (t, txp) ∈ pending ∧ (q, a) ∈ txp.ids := by
+  simp only [pidsOf, List.mem_flatMap, List.mem_map]
+  constructor
+  · rintro ⟨⟨t, txp⟩, hp, ⟨q', a⟩, hx, rfl⟩
+    exact ⟨t, txp, a, hp, hx⟩
+  · rintro ⟨t, txp, a, hp, hx⟩
+    exact ⟨(t, txp), hp, (q, a), hx, rfl⟩
+
+theorem addPending_map_of_not_mem (pending : List (Txid × TxPending)) (txid : Txid)
+    (new : List (Pgid × Txid)) (h : txid ∉ pending.map (·.1)) :
+    pending.map (fun p => if p.1 = txid then (p.1, { p.2 with ids := p.2.ids ++ new }) else p) = pending := by
+  induction pending with
+  | nil => rfl
+  | cons p ps ih =>
+    simp only [List.map_cons, List.mem_cons, not_or] at h
+    simp only [List.map_cons]
+    rw [ih h.2, if_neg (fun e => h.1 e.symm)]
+
+theorem addPending_keys (pending : List (Txid × TxPending)) (txid : Txid) (new : List (Pgid × Txid))
+    (h : (pending.map (·.1)).Nodup) : ((addPending pending txid new).map (·.1)).Nodup := by
+  unfold addPending
+  split
+  · have : (pending.map (fun p => if p.1 = txid then (p.1, ({ p.2 with ids := p.2.ids ++ new } : TxPending)) else p)).map (·.1)
+        = pending.map (·.1) := by
+      rw [List.map_map]; apply List.map_congr_left; intro p _; simp only [Function.comp]; split <;> rfl
+    rw [this]; exact h
+  · rename_i hnone
+    rw [List.find?_eq_none] at hnone
+    rw [List.map_append, List.nodup_append]
+    refine ⟨h, by simp, ?_⟩
+    intro a ha b hb
+    simp only [List.map_cons, List.map_nil, List.mem_singleton] at hb
+    subst hb
+    obtain ⟨p, hp, rfl⟩ := List.mem_map.mp ha
+    simpa using hnone p hp
+
+theorem pidsOf_map_add (pending : List (Txid × TxPending)) (txid : Txid) (new : List (Pgid × Txid))
+    (h : (pending.map (·.1)).Nodup) (hm : txid ∈ pending.map (·.1)) :
+    (pidsOf (pending.map (fun p => if p.1 = txid then (p.1, { p.2 with ids := p.2.ids ++ new }) else p))).Perm
+      (pidsOf pending ++ new.map (·.1)) := by
+  induction pending with
+  | nil => cases hm
+  | cons p ps ih =>
+    simp only [List.map_cons, List.nodup_cons] at h
+    simp only [List.map_cons]
+    by_cases hp : p.1 = txid
+    · rw [if_pos hp, addPending_map_of_not_mem ps txid new (hp ▸ h.1)]
+      simp only [pidsOf_cons, List.map_append, List.append_assoc]
+      exact List.Perm.append_left _ List.perm_append_comm
+    · rw [if_neg hp]
+      simp only [pidsOf_cons, List.append_assoc]
+      refine List.Perm.append_left _ (ih h.2 ?_)
+      simp only [List.map_cons, List.mem_cons] at hm
+      rcases hm with hm | hm
+      · exact absurd hm.symm hp
+      · exact hm
+
+theorem addPending_perm (pending : List (Txid × TxPending)) (txid : Txid) (new : List (Pgid × Txid))
+    (h : (pending.map (·.1)).Nodup) :
+    (pidsOf (addPending pending txid new)).Perm (pidsOf pending ++ new.map (·.1)) := by
+  unfold addPending
+  split
+  · rename_i p0 hsome
+    apply pidsOf_map_add _ _ _ h
+    have h2 := List.find?_some hsome
+    simp only [decide_eq_true_eq] at h2
+    exact List.mem_map.mpr ⟨p0, List.mem_of_find?_eq_some hsome, h2⟩
+  · rw [pidsOf_append]
+    simp [pidsOf]
+
+theorem addPending_mem (pending : List (Txid × TxPending)) (txid : Txid) (new : List (Pgid × Txid)) :
+    ∃ txp, (txid, txp) ∈ addPending pending txid new ∧ ∀ x ∈ new, x ∈ txp.ids := by
+  unfold addPending
+  split
+  · rename_i p0 hsome
+    have h1 := List.mem_of_find?_eq_some hsome
+    have h2 := List.find?_some hsome
+    simp only [decide_eq_true_eq] at h2
+    refine ⟨{ p0.2 with ids := p0.2.ids ++ new }, ?_, fun x hx => List.mem_append_right _ hx⟩
+    rw [List.mem_map]
+    exact ⟨p0, h1, by rw [if_pos h2, h2]⟩
+  · exact ⟨{ ids := new, lastReleaseBegin := 0 }, by simp, fun x hx => hx⟩
+
+theorem addPending_filter (pending : List (Txid × TxPending)) (txid : Txid) (new : List (Pgid × Txid)) :
+    (addPending pending txid new).filter (fun p => p.1 ≠ txid) = pending.filter (fun p => p.1 ≠ txid) := by
+  unfold addPending
+  split
+  · rename_i x hsome
+    clear hsome x
+    induction pending with
+    | nil => rfl
+    | cons p ps ih =>
+      by_cases hp : p.1 = txid
+      · simpa [hp] using ih
+      · simpa [hp] using ih
+  · simp
+
+/-! ### Free -/
+
+theorem freed_eq_false {f : FL} {q : Nat} : f.freed q = false ↔ q ∉ f.freeIds ∧ q ∉ f.pendingIds := by
+  simp [FL.freed]
+
+theorem mem_expandSpan' {q a n : Nat} : q ∈ expandSpan (a, n) ↔ a ≤ q ∧ q < a + n := mem_expandSpan
+
+theorem free_some {f : FL} {txid id ov : Nat} {g : FL} (h : f.free txid id ov = some g) :
+    2 ≤ id ∧ (∀ q, id ≤ q → q ≤ id + ov → q ∉ f.freeIds ∧ q ∉ f.pendingIds) ∧
+    g = { f with allocs := f.allocs.filter (fun a => a.1 ≠ id),
+                 pending := addPending f.pending txid
+                   ((expandSpan (id, ov + 1)).map (fun q => (q, (lookupAlloc f.allocs id).getD 0))) } := by
+  unfold FL.free at h
+  split at h
+  · cases h
+  · rename_i hid
+    simp only [] at h
+    split at h
+    · cases h
+    · rename_i hany
+      refine ⟨by fomega, ?_, ?_⟩
+      · intro q h1 h2
+        rw [← freed_eq_false]
+        rw [Bool.not_eq_true, List.any_eq_false] at hany
+        have := hany q (by
+          rw [List.mem_map]
+          exact ⟨q - id, List.mem_range.mpr (by omega), (by show id + (q - id) = q; omega)⟩)
+        simpa using this
+      · simp only [Option.some.injEq] at h
+        rw [← h]
+        rfl
+
+theorem free_inv {f : FL} (hinv : FLInv f) {txid id ov : Nat} {g : FL}
+    (h : f.free txid id ov = some g) :
+    FLInv g ∧ g.freeIds = f.freeIds ∧
+    g.pendingIds.Perm (f.pendingIds ++ expandSpan (id, ov + 1)) := by
+  obtain ⟨hid, hnf, rfl⟩ := free_some h
+  have hperm := addPending_perm f.pending txid
+      ((expandSpan (id, ov + 1)).map (fun q => (q, (lookupAlloc f.allocs id).getD 0))) hinv.pending_keys
+  have hmap : ((expandSpan (id, ov + 1)).map (fun q => (q, (lookupAlloc f.allocs id).getD 0))).map (·.1)
+      = expandSpan (id, ov + 1) := by
+    simp [List.map_map, Function.comp_def]
+  rw [hmap] at hperm
+  refine ⟨⟨hinv.array_sorted, hinv.spans_wf, ?_, ?_, ?_, ?_⟩, rfl, hperm⟩
+  · intro q hq hq'
+    have hq' : q ∈ pidsOf _ := hq'
+    rw [hperm.mem_iff, List.mem_append] at hq'
+    rcases hq' with hq' | hq'
+    · exact hinv.disjoint q hq hq'
+    · rw [mem_expandSpan'] at hq'
+      exact (hnf q hq'.1 (by omega)).1 hq
+  · show (pidsOf _).Nodup
+    rw [hperm.nodup_iff, List.nodup_append]
+    refine ⟨hinv.pending_nodup, (sorted_lt_iff.mp (expandSpan_sorted _)).2, ?_⟩
+    intro a ha b hb hab
+    subst hab
+    rw [mem_expandSpan'] at hb
+    exact (hnf a hb.1 (by omega)).2 ha
+  · exact addPending_keys _ _ _ hinv.pending_keys
+  · intro q hq
+    have hq : q ∈ pidsOf _ := hq
+    rw [hperm.mem_iff, List.mem_append] at hq
+    rcases hq with hq | hq
+    · exact hinv.pending_ge2 q hq
+    · rw [mem_expandSpan'] at hq
+      fomega
+
+/-! ### Allocate, hashmap backend -/
+
+/-- Removing the first `n` ids of span `s` (what `hashMap.Allocate` does). -/
+theorem hm_take_spec {spans : List (Pgid × Nat)} (hwf : SpansWF spans) {s : Pgid × Nat}
+    (hs : s ∈ spans) {n : Nat} (hn : 0 < n) (hle : n ≤ s.2) :
+    SpansWF (if s.2 > n then insertSpan (s.1 + n, s.2 - n) (spans.filter (fun t => t.1 ≠ s.1))
+             else spans.filter (fun t => t.1 ≠ s.1)) ∧
+    ∀ q, q ∈ spanIds (if s.2 > n then insertSpan (s.1 + n, s.2 - n) (spans.filter (fun t => t.1 ≠ s.1))
+             else spans.filter (fun t => t.1 ≠ s.1)) ↔
+         (q ∈ spanIds spans ∧ ¬ (s.1 ≤ q ∧ q < s.1 + n)) := by
+  have hrestwf : SpansWF (spans.filter (fun t => t.1 ≠ s.1)) := hwf.filter _
+  have hmemrest : ∀ t, t ∈ spans.filter (fun t => t.1 ≠ s.1) ↔ t ∈ spans ∧ t.1 ≠ s.1 := by
+    intro t; simp [List.mem_filter]
+  have hrest : ∀ q, q ∈ spanIds (spans.filter (fun t => t.1 ≠ s.1)) ↔
+      (q ∈ spanIds spans ∧ ¬ (s.1 ≤ q ∧ q < s.1 + s.2)) := by
+    intro q
+    simp only [mem_spanIds, hmemrest]
+    constructor
+    · rintro ⟨t, ⟨ht, hne⟩, hq⟩
+      refine ⟨⟨t, ht, hq⟩, ?_⟩
+      rcases hwf.sep ht hs with h1 | h1 | h1
+      · exact absurd (congrArg Prod.fst h1) hne
+      · fomega
+      · fomega
+    · rintro ⟨⟨t, ht, hq⟩, hnot⟩
+      refine ⟨t, ⟨ht, ?_⟩, hq⟩
+      intro he
+      have := hwf.eq_of_start ht hs he
+      subst this
+      exact hnot hq
+  have hspos := (hwf.1 s hs)
+  split
+  · rename_i hgt
+    refine ⟨hrestwf.insertSpan (by simp; omega) (by simp; fomega) ?_, ?_⟩
+    · intro t ht
+      rw [hmemrest] at ht
+      rcases hwf.sep ht.1 hs with h1 | h1 | h1
+      · exact absurd (congrArg Prod.fst h1) ht.2
+      · left; simp; fomega
+      · right; simp; fomega
+    · intro q
+      rw [mem_spanIds_insertSpan, hrest]
+      simp only []
+      constructor
+      · rintro (h1 | h1)
+        · refine ⟨mem_spanIds.mpr ⟨s, hs, ?_⟩, ?_⟩ <;> fomega
+        · exact ⟨h1.1, by fomega⟩
+      · rintro ⟨h1, h2⟩
+        by_cases h3 : s.1 ≤ q ∧ q < s.1 + s.2
+        · left; fomega
+        · right; exact ⟨h1, h3⟩
+  · rename_i hgt
+    refine ⟨hrestwf, ?_⟩
+    intro q
+    rw [hrest]
+    have : s.2 = n := by omega
+    rw [this]
+
+/-- A run of consecutive free ids lies inside one span (spans are maximal). -/
+theorem run_in_span {spans : List (Pgid × Nat)} (hwf : SpansWF spans) (a n : Nat) (hn : 0 < n)
+    (h : ∀ q, a ≤ q → q < a + n → q ∈ spanIds spans) :
+    ∃ t ∈ spans, t.1 ≤ a ∧ a + n ≤ t.1 + t.2 := by
+  induction n with
+  | zero => omega
+  | succ m ih =>
+    by_cases hm : m = 0
+    · subst hm
+      obtain ⟨t, ht, h1, h2⟩ := mem_spanIds.mp (h a (by omega) (by omega))
+      exact ⟨t, ht, h1, by fomega⟩
+    · obtain ⟨t, ht, h1, h2⟩ := ih (by omega) (fun q h1 h2 => h q h1 (by omega))
+      obtain ⟨t', ht', h3, h4⟩ := mem_spanIds.mp (h (a + m) (by omega) (by omega))
+      rcases hwf.sep ht ht' with h5 | h5 | h5
+      · subst h5
+        exact ⟨t, ht, h1, by fomega⟩
+      · fomega
+      · fomega
+
+theorem hm_allocate_some {f : FL} (hk : f.kind = .hashmap) {txid n c : Nat} {g : FL} {id : Nat}
+    (h : f.allocate txid n c = some (g, id)) :
+    (id = 0 ∧ g = f ∧ (n = 0 ∨ ∀ t ∈ f.spans, t.2 < n)) ∨
+    (id ≠ 0 ∧ 0 < n ∧ ∃ s ∈ f.spans, s.1 = id ∧ n ≤ s.2 ∧
+      g = { f with spans := (if s.2 > n then insertSpan (s.1 + n, s.2 - n) (f.spans.filter (fun t => t.1 ≠ s.1))
+                             else f.spans.filter (fun t => t.1 ≠ s.1)),
+                   allocs := setAlloc f.allocs id txid }) := by
+  unfold FL.allocate at h
+  rw [hk] at h
+  simp only [] at h
+  split at h
+  · rename_i hn
+    split at h
+    · cases h; exact Or.inl ⟨rfl, rfl, Or.inl hn⟩
+    · cases h
+  · rename_i hn
+    split at h
+    · split at h
+      · cases h
+      · rename_i hc hfit
+        cases h
+        refine Or.inl ⟨rfl, rfl, Or.inr ?_⟩
+        intro t ht
+        simp only [hmHasFit, Bool.not_eq_true, List.any_eq_false, decide_eq_true_eq] at hfit
+        have := hfit t ht
+        omega
+    · rename_i hc
+      split at h
+      · rename_i hlegal
+        split at h
+        · cases h
+        · rename_i s hfind
+          simp only [Option.some.injEq, Prod.mk.injEq] at h
+          obtain ⟨hg, hid⟩ := h
+          subst hid
+          have hs := List.mem_of_find?_eq_some hfind
+          have hs1 := List.find?_some hfind
+          simp only [decide_eq_true_eq] at hs1
+          refine Or.inr ⟨hc, by omega, s, hs, hs1, ?_, ?_⟩
+          · simp only [hmChoiceLegal, hfind] at hlegal
+            split at hlegal
+            · simp at hlegal; omega
+            · simpa using hlegal
+          · rw [← hg, hs1, hk]
+      · cases h
+
+theorem freeIds_hashmap {f : FL} (hk : f.kind = .hashmap) : f.freeIds = spanIds f.spans := by
+  simp [FL.freeIds, hk]
+
+theorem freeIds_array {f : FL} (hk : f.kind = .array) : f.freeIds = f.ids := by
+  simp [FL.freeIds, hk]
+
+theorem hm_allocate_spec' {f : FL} (hk : f.kind = .hashmap) (hinv : FLInv f) {txid n c : Nat}
+    {g : FL} {id : Nat} (h : f.allocate txid n c = some (g, id)) :
+    FLInv g ∧ g.pending = f.pending ∧
+      (id ≠ 0 → 0 < n ∧ 2 ≤ id ∧ (∀ q, id ≤ q → q < id + n → q ∈ f.freeIds) ∧
+                (∀ q, q ∈ g.freeIds ↔ (q ∈ f.freeIds ∧ ¬ (id ≤ q ∧ q < id + n)))) ∧
+      (id = 0 → g = f ∧ (n = 0 ∨ ∀ s, ¬ (∀ q, s ≤ q → q < s + n → q ∈ f.freeIds))) := by
+  have hwf := hinv.spans_wf hk
+  rcases hm_allocate_some hk h with ⟨hid, hg, hno⟩ | ⟨hid, hn, s, hs, hs1, hle, hg⟩
+  · subst hg
+    refine ⟨hinv, rfl, fun h => absurd hid h, fun _ => ⟨rfl, ?_⟩⟩
+    rcases hno with h0 | hno
+    · exact Or.inl h0
+    · by_cases h0 : n = 0
+      · exact Or.inl h0
+      · right
+        intro s hrun
+        rw [freeIds_hashmap hk] at hrun
+        obtain ⟨t, ht, h1, h2⟩ := run_in_span hwf s n (by omega) hrun
+        have := hno t ht
+        fomega
+  · obtain ⟨hwf', hmem⟩ := hm_take_spec hwf hs hn hle
+    have hgk : g.kind = .hashmap := by rw [hg]; exact hk
+    have hgp : g.pending = f.pending := by rw [hg]
+    have hgs : g.spans = (if s.2 > n then insertSpan (s.1 + n, s.2 - n) (f.spans.filter (fun t => t.1 ≠ s.1))
+                             else f.spans.filter (fun t => t.1 ≠ s.1)) := by rw [hg]
+    have hmem' : ∀ q, q ∈ g.freeIds ↔ (q ∈ f.freeIds ∧ ¬ (id ≤ q ∧ q < id + n)) := by
+      intro q
+      rw [freeIds_hashmap hgk, freeIds_hashmap hk, hgs, hmem q, hs1]
+    refine ⟨⟨?_, ?_, ?_, ?_, ?_, ?_⟩, hgp, fun _ => ⟨hn, ?_, ?_, hmem'⟩, fun h0 => absurd h0 hid⟩
+    · intro h; rw [hgk] at h; cases h
+    · intro _; rw [hgs]; exact hwf'
+    · intro q hq
+      rw [pendingIds_congr hgp]
+      exact hinv.disjoint q ((hmem' q).mp hq).1
+    · rw [pendingIds_congr hgp]; exact hinv.pending_nodup
+    · rw [hgp]; exact hinv.pending_keys
+    · rw [pendingIds_congr hgp]; exact hinv.pending_ge2
+    · have := (hwf.1 s hs).2; fomega
+    · intro q h1 h2
+      rw [freeIds_hashmap hk]
+      exact mem_spanIds.mpr ⟨s, hs, by fomega, by fomega⟩
+
+theorem hm_allocate_total' {f : FL} (hk : f.kind = .hashmap) (hinv : FLInv f) (txid n : Nat) :
+    ∃ c g id, f.allocate txid n c = some (g, id) := by
+  have hwf := hinv.spans_wf hk
+  unfold FL.allocate
+  rw [hk]
+  simp only []
+  by_cases hn : n = 0
+  · exact ⟨0, f, 0, by simp [hn]⟩
+  · by_cases hfit : hmHasFit f.spans n = true
+    · -- pick an exact span if there is one, else any fitting span
+      have hpick : ∃ s ∈ f.spans, (if f.spans.any (fun t => t.2 = n) then s.2 = n else s.2 ≥ n) := by
+        by_cases hex : f.spans.any (fun t => t.2 = n) = true
+        · obtain ⟨s, hs, h1⟩ := List.any_eq_true.mp hex
+          exact ⟨s, hs, by simpa [hex] using h1⟩
+        · obtain ⟨s, hs, h1⟩ := List.any_eq_true.mp hfit
+          exact ⟨s, hs, by simpa [hex] using h1⟩
+      obtain ⟨s, hs, hsz⟩ := hpick
+      have hfind : f.spans.find? (fun t => t.1 = s.1) = some s := by
+        cases hf : f.spans.find? (fun t => t.1 = s.1) with
+        | none =>
+          rw [List.find?_eq_none] at hf
+          exact absurd (by simp) (hf s hs)
+        | some t =>
+          have h1 := List.mem_of_find?_eq_some hf
+          have h2 := List.find?_some hf
+          simp only [decide_eq_true_eq] at h2
+          rw [hwf.eq_of_start h1 hs h2]
+      have hc : s.1 ≠ 0 := by have := (hwf.1 s hs).2; fomega
+      have hlegal : hmChoiceLegal f.spans n s.1 = true := by
+        simp only [hmChoiceLegal, hfind]
+        split
+        · rename_i hex; simpa [hex] using hsz
+        · rename_i hex; simpa [hex] using hsz
+      refine ⟨s.1, ?_⟩
+      simp only [hn, hc, hlegal, hfind, if_false, if_true]
+      exact ⟨_, _, rfl⟩
+    · refine ⟨0, f, 0, ?_⟩
+      simp [hn, hfit]
+
+/-! ### Allocate, array backend -/
+
+/-- all of `s .. s+n-1` are in `l` -/
+def RunIn (l : List Nat) (s n : Nat) : Prop := ∀ q, s ≤ q → q < s + n → q ∈ l
+
+theorem arrayScan_spec {n : Nat} (hn : 0 < n) (rest : List Nat) :
+    ∀ (initial previd i : Nat) (pre full : List Nat),
+    full = pre ++ expandSpan (initial, previd - initial + 1) ++ rest →
+    full.Pairwise (· < ·) → (∀ q ∈ full, 2 ≤ q) →
+    initial ≤ previd → previd - initial + 1 < n →
+    i = pre.length + (previd - initial + 1) →
+    (∀ s, RunIn full s n → initial ≤ s) →
+    match arrayScan n rest initial previd i with
+    | .error _ => False
+    | .ok none => ∀ s, ¬ RunIn full s n
+    | .ok (some (a, j)) =>
+        (∃ A C, full = A ++ expandSpan (a, n) ++ C ∧ j + 1 = A.length + n) ∧
+        ∀ s, s < a → ¬ RunIn full s n := by
+  induction rest with
+  | nil =>
+    intro initial previd i pre full hfull hsorted hge hip hlen hi hfirst
+    simp only [arrayScan]
+    intro s hrun
+    have h1 := hfirst s hrun
+    have h2 := hrun (s + n - 1) (by omega) (by omega)
+    rw [hfull, List.append_nil, List.mem_append, mem_expandSpan'] at h2
+    rcases h2 with h2 | h2
+    · -- elements of pre are below initial
+      rw [hfull, List.append_nil, List.pairwise_append] at hsorted
+      have := hsorted.2.2 _ h2 initial (mem_expandSpan'.mpr ⟨by omega, by omega⟩)
+      omega
+    · omega
+  | cons id rest' ih =>
+    intro initial previd i pre full hfull hsorted hge hip hlen hi hfirst
+    have hid2 : 2 ≤ id := hge id (by rw [hfull]; simp)
+    have hprev2 : 2 ≤ previd := hge previd (by
+      rw [hfull]; simp only [List.mem_append]; left; right
+      exact mem_expandSpan'.mpr ⟨hip, by omega⟩)
+    have hs' := hsorted
+    rw [hfull, List.pairwise_append] at hs'
+    obtain ⟨hs1, hs2, hs3⟩ := hs'
+    rw [List.pairwise_append] at hs1
+    obtain ⟨hs4, hs5, hs6⟩ := hs1
+    rw [List.pairwise_cons] at hs2
+    have hprevid : previd < id := hs3 previd (by
+      simp only [List.mem_append]; right
+      exact mem_expandSpan'.mpr ⟨hip, by omega⟩) id (by simp)
+    -- every element of full is ≤ previd or ≥ id
+    have hgap : ∀ q ∈ full, q ≤ previd ∨ id ≤ q := by
+      intro q hq
+      rw [hfull] at hq
+      simp only [List.mem_append, List.mem_cons] at hq
+      rcases hq with (hq | hq) | hq | hq
+      · have := hs6 q hq initial (mem_expandSpan'.mpr ⟨by omega, by omega⟩); omega
+      · rw [mem_expandSpan'] at hq; omega
+      · omega
+      · have := hs2.1 q hq; omega
+    unfold arrayScan
+    rw [if_neg (by fomega)]
+    simp only []
+    by_cases hadj : id = previd + 1
+    · -- the run continues
+      have hinit : (if previd = 0 ∨ id - previd ≠ 1 then id else initial) = initial := by
+        rw [if_neg]; omega
+      simp only [hinit]
+      have hexp : expandSpan (initial, id - initial + 1) = expandSpan (initial, previd - initial + 1) ++ [id] := by
+        have : id - initial + 1 = (previd - initial + 1) + 1 := by omega
+        rw [this, expandSpan_succ]
+        congr 2; omega
+      by_cases hfound : id - initial + 1 = n
+      · rw [if_pos hfound]
+        dsimp only
+        refine ⟨⟨pre, rest', ?_, by omega⟩, fun s hs hrun => by have := hfirst s hrun; fomega⟩
+        rw [← hfound, hexp, hfull]; simp
+      · rw [if_neg hfound]
+        apply ih initial id (i + 1) pre full
+        · rw [hexp, hfull]; simp
+        · exact hsorted
+        · exact hge
+        · omega
+        · omega
+        · omega
+        · exact hfirst
+    · -- a new run starts at id
+      have hinit : (if previd = 0 ∨ id - previd ≠ 1 then id else initial) = id := by
+        rw [if_pos]; omega
+      simp only [hinit]
+      have hB : ∀ s, RunIn full s n → id ≤ s := by
+        intro s hrun
+        have h1 := hfirst s hrun
+        by_cases hsp : s ≤ previd
+        · have h2 := hgap _ (hrun (previd + 1) (by omega) (by omega))
+          omega
+        · have h2 := hgap _ (hrun s (by omega) (by omega))
+          omega
+      have hexp : expandSpan (id, id - id + 1) = [id] := by
+        simp [expandSpan]
+      by_cases hfound : id - id + 1 = n
+      · rw [if_pos hfound]
+        dsimp only
+        refine ⟨⟨pre ++ expandSpan (initial, previd - initial + 1), rest', ?_, ?_⟩,
+                fun s hs hrun => by have := hB s hrun; fomega⟩
+        · rw [← hfound, hexp, hfull]; simp
+        · simp [expandSpan] at hi ⊢; omega
+      · rw [if_neg hfound]
+        apply ih id id (i + 1) (pre ++ expandSpan (initial, previd - initial + 1)) full
+        · rw [hexp, hfull]; simp
+        · exact hsorted
+        · exact hge
+        · omega
+        · omega
+        · simp [expandSpan] at hi ⊢; omega
+        · exact hB
+
+theorem arrayScan_zero (l : List Nat) (hge : ∀ q ∈ l, 2 ≤ q) :
+    ∀ initial previd i, arrayScan 0 l initial previd i = .ok none := by
+  induction l with
+  | nil => intro _ _ _; rfl
+  | cons id rest ih =>
+    intro initial previd i
+    have := hge id (by simp)
+    unfold arrayScan
+    rw [if_neg (by fomega)]
+    simp only []
+    rw [if_neg (Nat.succ_ne_zero _)]
+    exact ih (fun q hq => hge q (List.mem_cons_of_mem _ hq)) _ _ _
+
+theorem arrayScan_top (n : Nat) (ids : List Nat) (hs : ids.Pairwise (· < ·)) (hge : ∀ q ∈ ids, 2 ≤ q) :
+    match arrayScan n ids 0 0 0 with
+    | .error _ => False
+    | .ok none => n = 0 ∨ ∀ s, ¬ RunIn ids s n
+    | .ok (some (a, j)) =>
+        0 < n ∧ (∃ A C, ids = A ++ expandSpan (a, n) ++ C ∧ j + 1 = A.length + n) ∧
+        ∀ s, s < a → ¬ RunIn ids s n := by
+  by_cases hn : n = 0
+  · subst hn
+    rw [arrayScan_zero ids hge]
+    exact Or.inl rfl
+  · cases ids with
+    | nil =>
+      simp only [arrayScan]
+      right
+      intro s hrun
+      have := hrun s (by omega) (by omega)
+      cases this
+    | cons id rest =>
+      have hid2 : 2 ≤ id := hge id (by simp)
+      have hs' := hs
+      rw [List.pairwise_cons] at hs'
+      have hB : ∀ s, RunIn (id :: rest) s n → id ≤ s := by
+        intro s hrun
+        have := hrun s (by omega) (by omega)
+        rcases List.mem_cons.mp this with h | h
+        · omega
+        · have := hs'.1 s h; omega
+      unfold arrayScan
+      rw [if_neg (by fomega)]
+      simp only [true_or, if_true]
+      by_cases hfound : id - id + 1 = n
+      · rw [if_pos hfound]
+        dsimp only
+        refine ⟨by omega, ⟨[], rest, ?_, by simp; omega⟩, fun s hs hrun => by have := hB s hrun; fomega⟩
+        rw [← hfound]; simp [expandSpan]
+      · rw [if_neg hfound]
+        have := arrayScan_spec (n := n) (by omega) rest id id (0 + 1) [] (id :: rest)
+          (by simp [expandSpan]) hs hge (by omega) (by omega) (by simp) hB
+        revert this
+        split
+        · exact fun h => h
+        · intro h; exact Or.inr h
+        · intro h; exact ⟨by omega, h⟩
+
+theorem length_expandSpan (s : Pgid × Nat) : (expandSpan s).length = s.2 := by
+  simp [expandSpan]
+
+theorem array_allocate_spec' {f : FL} (hk : f.kind = .array) (hinv : FLInv f) (txid n c : Nat) :
+    ∃ g id, f.allocate txid n c = some (g, id) ∧ FLInv g ∧ g.pending = f.pending ∧
+      (id ≠ 0 → 0 < n ∧ 2 ≤ id ∧ RunIn f.freeIds id n ∧
+                (∀ q, q ∈ g.freeIds ↔ (q ∈ f.freeIds ∧ ¬ (id ≤ q ∧ q < id + n))) ∧
+                (∀ s, s < id → ¬ RunIn f.freeIds s n)) ∧
+      (id = 0 → g = f ∧ (n = 0 ∨ ∀ s, ¬ RunIn f.freeIds s n)) := by
+  obtain ⟨hsorted, hge⟩ := hinv.array_sorted hk
+  have hfree := freeIds_array hk
+  unfold FL.allocate
+  rw [hk]
+  simp only []
+  split
+  · rename_i hempty
+    refine ⟨f, 0, rfl, hinv, rfl, fun h => absurd rfl h, fun _ => ⟨rfl, ?_⟩⟩
+    by_cases hn : n = 0
+    · exact Or.inl hn
+    · right
+      intro s hrun
+      have := hrun s (by omega) (by omega)
+      rw [hfree, List.isEmpty_iff.mp hempty] at this
+      cases this
+  · have htop := arrayScan_top n f.ids hsorted hge
+    split
+    · rename_i herr; rw [herr] at htop; exact htop.elim
+    · rename_i hnone
+      rw [hnone] at htop
+      dsimp only at htop
+      rw [← hfree] at htop
+      exact ⟨f, 0, rfl, hinv, rfl, fun h => absurd rfl h, fun _ => ⟨rfl, htop⟩⟩
+    · rename_i a j hsome
+      rw [hsome] at htop
+      dsimp only at htop
+      obtain ⟨hn, ⟨A, C, hids, hj⟩, hfirst⟩ := htop
+      have htake : f.ids.take (j + 1 - n) = A := by
+        have : j + 1 - n = A.length := by omega
+        rw [this, hids, List.append_assoc, List.take_left]
+      have hdrop : f.ids.drop (j + 1) = C := by
+        have : j + 1 = (A ++ expandSpan (a, n)).length := by
+          rw [List.length_append, length_expandSpan]; omega
+        rw [this, hids, List.drop_left]
+      rw [htake, hdrop]
+      have hs' := hsorted
+      rw [hids, List.pairwise_append] at hs'
+      obtain ⟨hs1, hs2, hs3⟩ := hs'
+      rw [List.pairwise_append] at hs1
+      obtain ⟨hs4, hs5, hs6⟩ := hs1
+      have hmem : ∀ q, q ∈ A ++ C ↔ (q ∈ f.ids ∧ ¬ (a ≤ q ∧ q < a + n)) := by
+        intro q
+        rw [hids]
+        simp only [List.mem_append, mem_expandSpan']
+        constructor
+        · rintro (h | h)
+          · refine ⟨Or.inl (Or.inl h), fun hq => ?_⟩
+            have := hs6 q h q (mem_expandSpan'.mpr hq); fomega
+          · refine ⟨Or.inr h, fun hq => ?_⟩
+            have := hs3 q (List.mem_append_right _ (mem_expandSpan'.mpr hq)) q h; fomega
+        · rintro ⟨(h | h) | h, hq⟩
+          · exact Or.inl h
+          · exact absurd h hq
+          · exact Or.inr h
+      have ha2 : 2 ≤ a := hge a (by
+        rw [hids]; simp only [List.mem_append]; left; right
+        exact mem_expandSpan'.mpr ⟨by omega, by omega⟩)
+      refine ⟨_, a, rfl, ⟨?_, ?_, ?_, hinv.pending_nodup, hinv.pending_keys, hinv.pending_ge2⟩, rfl,
+              fun _ => ⟨hn, ha2, ?_, ?_, ?_⟩, fun h0 => by fomega⟩
+      · intro _
+        refine ⟨?_, fun q hq => hge q ((hmem q).mp hq).1⟩
+        rw [List.pairwise_append]
+        exact ⟨hs4, hs2, fun x hx y hy => hs3 x (List.mem_append_left _ hx) y hy⟩
+      · intro h; cases h
+      · intro q hq
+        have hq : q ∈ A ++ C := by simpa [FL.freeIds, hk] using hq
+        have := ((hmem q).mp hq).1
+        rw [← hfree] at this
+        exact hinv.disjoint q this
+      · intro q h1 h2
+        rw [hfree, hids]
+        simp only [List.mem_append]; left; right
+        exact mem_expandSpan'.mpr ⟨h1, h2⟩
+      · intro q
+        rw [hfree, ← hmem q]
+        simp [FL.freeIds]
+      · rw [hfree]; exact hfirst
+
+/-! ### Rollback -/
+
+theorem free_frame {f g : FL} {txid id ov : Nat} (h : f.free txid id ov = some g) :
+    g.kind = f.kind ∧ g.ids = f.ids ∧ g.spans = f.spans ∧
+    g.pending.filter (fun p => p.1 ≠ txid) = f.pending.filter (fun p => p.1 ≠ txid) := by
+  obtain ⟨_, _, rfl⟩ := free_some h
+  exact ⟨rfl, rfl, rfl, addPending_filter _ _ _⟩
+
+theorem foldlM_free_frame (txid : Nat) (frees : List (Nat × Nat)) :
+    ∀ (f g : FL), frees.foldlM (fun (s : FL) (x : Nat × Nat) => s.free txid x.1 x.2) f = some g →
+    g.kind = f.kind ∧ g.ids = f.ids ∧ g.spans = f.spans ∧
+    g.pending.filter (fun p => p.1 ≠ txid) = f.pending.filter (fun p => p.1 ≠ txid) := by
+  induction frees with
+  | nil =>
+    intro f g h
+    simp only [List.foldlM_nil, pure, Option.some.injEq] at h
+    subst h
+    exact ⟨rfl, rfl, rfl, rfl⟩
+  | cons x xs ih =>
+    intro f g h
+    rw [List.foldlM_cons] at h
+    cases hf : f.free txid x.1 x.2 with
+    | none => rw [hf] at h; cases h
+    | some f1 =>
+      rw [hf] at h
+      obtain ⟨h1, h2, h3, h4⟩ := free_frame hf
+      obtain ⟨h5, h6, h7, h8⟩ := ih f1 g h
+      exact ⟨h5.trans h1, h6.trans h2, h7.trans h3, h8.trans h4⟩
+
+theorem rollback_frame' {f g : FL} {txid : Nat} (h : f.rollback txid = some g) :
+    g.kind = f.kind ∧ g.ids = f.ids ∧ g.spans = f.spans ∧
+    g.pending = f.pending.filter (fun p => p.1 ≠ txid) := by
+  unfold FL.rollback at h
+  split at h
+  · rename_i hnone
+    cases h
+    refine ⟨rfl, rfl, rfl, ?_⟩
+    rw [List.find?_eq_none] at hnone
+    symm
+    rw [List.filter_eq_self]
+    intro p hp
+    simpa using hnone p hp
+  · split at h
+    · cases h
+    · cases h
+      exact ⟨rfl, rfl, rfl, rfl⟩
+
+/-! ### hashmap `mergeSpans` -/
+
+theorem merge_core {spans spans2 : List (Pgid × Nat)} {ns nz : Nat}
+    (h2wf : SpansWF spans2) (hnz : 0 < nz) (hns : 2 ≤ ns)
+    (hsub : ∀ t ∈ spans2, t ∈ spans)
+    (hsep : ∀ t ∈ spans2, t.1 + t.2 < ns ∨ ns + nz < t.1)
+    (hcov : ∀ t ∈ spans, t ∈ spans2 ∨ (ns ≤ t.1 ∧ t.1 + t.2 ≤ ns + nz)) :
+    SpansWF (insertSpan (ns, nz) spans2) ∧
+    ∀ q, q ∈ spanIds (insertSpan (ns, nz) spans2) ↔ ((ns ≤ q ∧ q < ns + nz) ∨ q ∈ spanIds spans) := by
+  refine ⟨h2wf.insertSpan hnz hns hsep, ?_⟩
+  intro q
+  rw [mem_spanIds_insertSpan]
+  simp only [mem_spanIds]
+  constructor
+  · rintro (h | ⟨t, ht, h⟩)
+    · exact Or.inl h
+    · exact Or.inr ⟨t, hsub t ht, h⟩
+  · rintro (h | ⟨t, ht, h⟩)
+    · exact Or.inl h
+    · rcases hcov t ht with h1 | h1
+      · exact Or.inr ⟨t, h1, h⟩
+      · left; fomega
+
+theorem mergeWithExisting_spec {spans : List (Pgid × Nat)} (hwf : SpansWF spans) {a b : Nat}
+    (ha : 2 ≤ a) (hab : a ≤ b) (hd : ∀ q, a ≤ q → q ≤ b → q ∉ spanIds spans) :
+    SpansWF (mergeWithExisting spans a b) ∧
+    ∀ q, q ∈ spanIds (mergeWithExisting spans a b) ↔ (q ∈ spanIds spans ∨ (a ≤ q ∧ q ≤ b)) := by
+  have hdis : ∀ t ∈ spans, t.1 + t.2 ≤ a ∨ b < t.1 := by
+    intro t ht
+    by_cases h : t.1 + t.2 ≤ a ∨ b < t.1
+    · exact h
+    · exfalso
+      by_cases h2 : a ≤ t.1
+      · exact hd t.1 h2 (by fomega) (mem_spanIds.mpr ⟨t, ht, by fomega, by have := (hwf.1 t ht).1; fomega⟩)
+      · exact hd a (by omega) hab (mem_spanIds.mpr ⟨t, ht, by fomega, by fomega⟩)
+  have hpos : ∀ t ∈ spans, 0 < t.2 := fun t ht => (hwf.1 t ht).1
+  cases hprev : spans.find? (fun s => s.1 + s.2 = a) with
+  | none =>
+    have hnp : ∀ t ∈ spans, t.1 + t.2 ≠ a := by
+      intro t ht; simpa using (List.find?_eq_none.mp hprev) t ht
+    cases hnext : spans.find? (fun s => s.1 = b + 1) with
+    | none =>
+      have hnn : ∀ t ∈ spans, t.1 ≠ b + 1 := by
+        intro t ht; simpa using (List.find?_eq_none.mp hnext) t ht
+      simp only [mergeWithExisting, hprev, hnext]
+      obtain ⟨h1, h2⟩ := merge_core (spans := spans) (spans2 := spans) (ns := a) (nz := b - a + 1 + 0 + 0)
+        hwf (by omega) ha (fun t ht => ht)
+        (by intro t ht; have := hdis t ht; have := hnp t ht; have := hnn t ht; fomega)
+        (fun t ht => Or.inl ht)
+      refine ⟨h1, fun q => ?_⟩
+      rw [h2 q]
+      constructor
+      · rintro (h | h)
+        · exact Or.inr (by fomega)
+        · exact Or.inl h
+      · rintro (h | h)
+        · exact Or.inr h
+        · exact Or.inl (by fomega)
+    | some nx =>
+      have hnx := List.mem_of_find?_eq_some hnext
+      have hnx1 : nx.1 = b + 1 := by simpa using List.find?_some hnext
+      simp only [mergeWithExisting, hprev, hnext]
+      have hmem2 : ∀ t, t ∈ spans.filter (fun s => s.1 ≠ nx.1) ↔ t ∈ spans ∧ t.1 ≠ nx.1 := by
+        intro t; simp [List.mem_filter]
+      obtain ⟨h1, h2⟩ := merge_core (spans := spans) (spans2 := spans.filter (fun s => s.1 ≠ nx.1))
+        (ns := a) (nz := b - a + 1 + 0 + nx.2)
+        (hwf.filter _) (by omega) ha (fun t ht => ((hmem2 t).mp ht).1)
+        (by
+          intro t ht
+          rw [hmem2] at ht
+          have := hdis t ht.1; have := hnp t ht.1; have := hpos t ht.1
+          rcases hwf.sep ht.1 hnx with h | h | h
+          · exact absurd (congrArg Prod.fst h) ht.2
+          · fomega
+          · fomega)
+        (by
+          intro t ht
+          by_cases h : t.1 = nx.1
+          · have := hwf.eq_of_start ht hnx h
+            subst this
+            right; fomega
+          · exact Or.inl ((hmem2 t).mpr ⟨ht, h⟩))
+      refine ⟨h1, fun q => ?_⟩
+      rw [h2 q]
+      constructor
+      · rintro (h | h)
+        · by_cases hq : q ≤ b
+          · exact Or.inr ⟨h.1, hq⟩
+          · exact Or.inl (mem_spanIds.mpr ⟨nx, hnx, by fomega, by fomega⟩)
+        · exact Or.inl h
+      · rintro (h | h)
+        · exact Or.inr h
+        · exact Or.inl (by fomega)
+  | some p =>
+    have hp := List.mem_of_find?_eq_some hprev
+    have hp1 : p.1 + p.2 = a := by simpa using List.find?_some hprev
+    have hmem1 : ∀ t, t ∈ spans.filter (fun s => s.1 ≠ p.1) ↔ t ∈ spans ∧ t.1 ≠ p.1 := by
+      intro t; simp [List.mem_filter]
+    have hp2 := (hwf.1 p hp).2
+    cases hnext : spans.find? (fun s => s.1 = b + 1) with
+    | none =>
+      have hnn : ∀ t ∈ spans, t.1 ≠ b + 1 := by
+        intro t ht; simpa using (List.find?_eq_none.mp hnext) t ht
+      simp only [mergeWithExisting, hprev, hnext]
+      obtain ⟨h1, h2⟩ := merge_core (spans := spans) (spans2 := spans.filter (fun s => s.1 ≠ p.1))
+        (ns := p.1) (nz := b - a + 1 + p.2 + 0)
+        (hwf.filter _) (by omega) hp2 (fun t ht => ((hmem1 t).mp ht).1)
+        (by
+          intro t ht
+          rw [hmem1] at ht
+          have := hdis t ht.1; have := hnn t ht.1; have := hpos t ht.1
+          rcases hwf.sep ht.1 hp with h | h | h
+          · exact absurd (congrArg Prod.fst h) ht.2
+          · fomega
+          · fomega)
+        (by
+          intro t ht
+          by_cases h : t.1 = p.1
+          · have := hwf.eq_of_start ht hp h
+            subst this
+            right; fomega
+          · exact Or.inl ((hmem1 t).mpr ⟨ht, h⟩))
+      refine ⟨h1, fun q => ?_⟩
+      rw [h2 q]
+      constructor
+      · rintro (h | h)
+        · by_cases hq : a ≤ q
+          · exact Or.inr ⟨hq, by fomega⟩
+          · exact Or.inl (mem_spanIds.mpr ⟨p, hp, by fomega, by fomega⟩)
+        · exact Or.inl h
+      · rintro (h | h)
+        · exact Or.inr h
+        · exact Or.inl (by fomega)
+    | some nx =>
+      have hnx := List.mem_of_find?_eq_some hnext
+      have hnx1 : nx.1 = b + 1 := by simpa using List.find?_some hnext
+      simp only [mergeWithExisting, hprev, hnext]
+      have hmem2 : ∀ t, t ∈ (spans.filter (fun s => s.1 ≠ p.1)).filter (fun s => s.1 ≠ nx.1) ↔
+          t ∈ spans ∧ t.1 ≠ p.1 ∧ t.1 ≠ nx.1 := by
+        intro t; simp [List.mem_filter]; intro _; exact And.comm
+      obtain ⟨h1, h2⟩ := merge_core (spans := spans)
+        (spans2 := (spans.filter (fun s => s.1 ≠ p.1)).filter (fun s => s.1 ≠ nx.1))
+        (ns := p.1) (nz := b - a + 1 + p.2 + nx.2)
+        ((hwf.filter _).filter _) (by omega) hp2 (fun t ht => ((hmem2 t).mp ht).1)
+        (by
+          intro t ht
+          rw [hmem2] at ht
+          have := hdis t ht.1; have := hpos t ht.1
+          rcases hwf.sep ht.1 hp with h | h | h
+          · exact absurd (congrArg Prod.fst h) ht.2.1
+          · fomega
+          · rcases hwf.sep ht.1 hnx with h' | h' | h'
+            · exact absurd (congrArg Prod.fst h') ht.2.2
+            · fomega
+            · fomega)
+        (by
+          intro t ht
+          by_cases h : t.1 = p.1
+          · have := hwf.eq_of_start ht hp h
+            subst this
+            right; fomega
+          · by_cases h' : t.1 = nx.1
+            · have := hwf.eq_of_start ht hnx h'
+              subst this
+              right; fomega
+            · exact Or.inl ((hmem2 t).mpr ⟨ht, h, h'⟩))
+      refine ⟨h1, fun q => ?_⟩
+      rw [h2 q]
+      constructor
+      · rintro (h | h)
+        · by_cases hq : a ≤ q
+          · by_cases hq' : q ≤ b
+            · exact Or.inr ⟨hq, hq'⟩
+            · exact Or.inl (mem_spanIds.mpr ⟨nx, hnx, by fomega, by fomega⟩)
+          · exact Or.inl (mem_spanIds.mpr ⟨p, hp, by fomega, by fomega⟩)
+        · exact Or.inl h
+      · rintro (h | h)
+        · exact Or.inr h
+        · exact Or.inl (by fomega)
+
+theorem hm_fold_go (ys : List Nat) : ∀ (spans : List (Pgid × Nat)) (start stop : Nat),
+    SpansWF spans → 2 ≤ start → start ≤ stop → ys.Pairwise (· < ·) → (∀ y ∈ ys, stop < y) →
+    (∀ q, (start ≤ q ∧ q ≤ stop) ∨ q ∈ ys → q ∉ spanIds spans) →
+    SpansWF ((runsOfSorted.go start stop ys).foldl (fun sp r => mergeWithExisting sp r.1 r.2) spans) ∧
+    ∀ q, q ∈ spanIds ((runsOfSorted.go start stop ys).foldl (fun sp r => mergeWithExisting sp r.1 r.2) spans) ↔
+      (q ∈ spanIds spans ∨ (start ≤ q ∧ q ≤ stop) ∨ q ∈ ys) := by
+  induction ys with
+  | nil =>
+    intro spans start stop hwf h2 hle _ _ hd
+    simp only [runsOfSorted.go, List.foldl_cons, List.foldl_nil]
+    obtain ⟨h1, h3⟩ := mergeWithExisting_spec hwf h2 hle (fun q ha hb => hd q (Or.inl ⟨ha, hb⟩))
+    refine ⟨h1, fun q => ?_⟩
+    rw [h3 q]; simp
+  | cons y ys ih =>
+    intro spans start stop hwf h2 hle hs hgt hd
+    rw [List.pairwise_cons] at hs
+    have hy := hgt y (by simp)
+    unfold runsOfSorted.go
+    by_cases hadj : y = stop + 1
+    · rw [if_pos hadj]
+      obtain ⟨h1, h3⟩ := ih spans start y hwf h2 (by fomega) hs.2 hs.1 (by
+        intro q hq
+        apply hd q
+        rcases hq with hq | hq
+        · by_cases h : q ≤ stop
+          · exact Or.inl ⟨hq.1, h⟩
+          · right; rw [List.mem_cons]; left; fomega
+        · right; exact List.mem_cons_of_mem _ hq)
+      refine ⟨h1, fun q => ?_⟩
+      rw [h3 q, List.mem_cons]
+      constructor
+      · rintro (h | h | h)
+        · exact Or.inl h
+        · by_cases h' : q ≤ stop
+          · exact Or.inr (Or.inl ⟨h.1, h'⟩)
+          · exact Or.inr (Or.inr (Or.inl (by fomega)))
+        · exact Or.inr (Or.inr (Or.inr h))
+      · rintro (h | h | h | h)
+        · exact Or.inl h
+        · exact Or.inr (Or.inl (by fomega))
+        · exact Or.inr (Or.inl (by fomega))
+        · exact Or.inr (Or.inr h)
+    · rw [if_neg hadj]
+      simp only [List.foldl_cons]
+      obtain ⟨h1, h3⟩ := mergeWithExisting_spec hwf h2 hle (fun q ha hb => hd q (Or.inl ⟨ha, hb⟩))
+      obtain ⟨h4, h5⟩ := ih (mergeWithExisting spans start stop) y y h1 (by fomega) (Nat.le_refl _)
+        hs.2 hs.1 (by
+        intro q hq
+        rw [h3 q]
+        intro hq'
+        rcases hq' with hq' | hq'
+        · refine hd q ?_ hq'
+          right
+          rcases hq with hq | hq
+          · rw [List.mem_cons]; left; fomega
+          · exact List.mem_cons_of_mem _ hq
+        · rcases hq with hq | hq
+          · fomega
+          · have := hs.1 q hq; fomega)
+      refine ⟨h4, fun q => ?_⟩
+      rw [h5 q, h3 q, List.mem_cons]
+      constructor
+      · rintro ((h | h) | h | h)
+        · exact Or.inl h
+        · exact Or.inr (Or.inl h)
+        · exact Or.inr (Or.inr (Or.inl (by fomega)))
+        · exact Or.inr (Or.inr (Or.inr h))
+      · rintro (h | h | h | h)
+        · exact Or.inl (Or.inl h)
+        · exact Or.inl (Or.inr h)
+        · exact Or.inr (Or.inl (by fomega))
+        · exact Or.inr (Or.inr h)
+
+theorem hmMergeSpans_spec {spans : List (Pgid × Nat)} (hwf : SpansWF spans) {ids : List Nat}
+    (hnd : ids.Nodup) (hge : ∀ q ∈ ids, 2 ≤ q) (hd : ∀ q ∈ ids, q ∉ spanIds spans) :
+    SpansWF (hmMergeSpans spans ids) ∧
+    ∀ q, q ∈ spanIds (hmMergeSpans spans ids) ↔ (q ∈ spanIds spans ∨ q ∈ ids) := by
+  unfold hmMergeSpans
+  have hs := sortNat_sorted_lt hnd
+  have hmem : ∀ q, q ∈ sortNat ids ↔ q ∈ ids := fun q => mem_sortNat
+  revert hs hmem
+  cases sortNat ids with
+  | nil =>
+    intro _ hmem
+    simp only [runsOfSorted, List.foldl_nil]
+    exact ⟨hwf, fun q => by rw [← hmem q]; simp⟩
+  | cons x xs =>
+    intro hs hmem
+    rw [List.pairwise_cons] at hs
+    simp only [runsOfSorted]
+    obtain ⟨h1, h2⟩ := hm_fold_go xs spans x x hwf (hge x ((hmem x).mp (by simp))) (Nat.le_refl _)
+      hs.2 hs.1 (by
+        intro q hq
+        apply hd q
+        rw [← hmem q, List.mem_cons]
+        rcases hq with hq | hq
+        · left; fomega
+        · right; exact hq)
+    refine ⟨h1, fun q => ?_⟩
+    rw [h2 q, ← hmem q, List.mem_cons]
+    constructor
+    · rintro (h | h | h)
+      · exact Or.inl h
+      · exact Or.inr (Or.inl (by fomega))
+      · exact Or.inr (Or.inr h)
+    · rintro (h | h | h)
+      · exact Or.inl h
+      · exact Or.inr (Or.inl (by fomega))
+      · exact Or.inr (Or.inr h)
+
+theorem mergeSpans_pending (f : FL) (ids : List Pgid) : (f.mergeSpans ids).pending = f.pending := by
+  unfold FL.mergeSpans; split
+  · rfl
+  · split <;> rfl
+
+theorem mergeSpans_readers (f : FL) (ids : List Pgid) : (f.mergeSpans ids).readers = f.readers := by
+  unfold FL.mergeSpans; split
+  · rfl
+  · split <;> rfl
+
+theorem mergeSpans_kind (f : FL) (ids : List Pgid) : (f.mergeSpans ids).kind = f.kind := by
+  unfold FL.mergeSpans; split
+  · rfl
+  · split <;> rfl
+
+/-- `mergeSpans` on fresh ids: both backends compute the union and stay well-formed. -/
+theorem mergeSpans_spec {f : FL}
+    (harr : f.kind = .array → f.ids.Pairwise (· < ·) ∧ ∀ q ∈ f.ids, 2 ≤ q)
+    (hwf : f.kind = .hashmap → SpansWF f.spans)
+    {ids : List Pgid} (hnd : ids.Nodup) (hge : ∀ q ∈ ids, 2 ≤ q) (hd : ∀ q ∈ ids, q ∉ f.freeIds) :
+    (f.kind = .array → (f.mergeSpans ids).ids.Pairwise (· < ·) ∧ ∀ q ∈ (f.mergeSpans ids).ids, 2 ≤ q) ∧
+    (f.kind = .hashmap → SpansWF (f.mergeSpans ids).spans) ∧
+    ∀ q, q ∈ (f.mergeSpans ids).freeIds ↔ (q ∈ f.freeIds ∨ q ∈ ids) := by
+  cases hk : f.kind with
+  | array =>
+    obtain ⟨hs, hg2⟩ := harr hk
+    have hfree := freeIds_array hk
+    have hm : f.mergeSpans ids = { f with ids := mergeSorted f.ids (sortNat ids) } := by
+      unfold FL.mergeSpans; rw [hk]
+    have hfree' : (f.mergeSpans ids).freeIds = mergeSorted f.ids (sortNat ids) := by
+      rw [hm]; simp [FL.freeIds, hk]
+    refine ⟨fun _ => ⟨?_, ?_⟩, fun h => (by cases h), fun q => ?_⟩
+    · rw [hm]
+      apply mergeSorted_sorted_lt hs (sortNat_sorted_lt hnd)
+      intro q hq hq'
+      rw [mem_sortNat] at hq'
+      exact hd q hq' (hfree ▸ hq)
+    · rw [hm]
+      intro q hq
+      rcases mem_mergeSorted.mp hq with h | h
+      · exact hg2 q h
+      · exact hge q (mem_sortNat.mp h)
+    · rw [hfree', hfree, mem_mergeSorted, mem_sortNat]
+  | hashmap =>
+    have hw := hwf hk
+    have hfree := freeIds_hashmap hk
+    refine ⟨fun h => (by cases h), fun _ => ?_, fun q => ?_⟩
+    · unfold FL.mergeSpans; rw [hk]
+      simp only []
+      split
+      · exact hw
+      · exact (hmMergeSpans_spec hw hnd hge (fun q hq => hfree ▸ hd q hq)).1
+    · have hk' := mergeSpans_kind f ids
+      rw [hk] at hk'
+      rw [freeIds_hashmap hk', hfree]
+      unfold FL.mergeSpans; rw [hk]
+      simp only []
+      split
+      · rename_i hemp
+        rw [List.isEmpty_iff.mp hemp]; simp
+      · exact (hmMergeSpans_spec hw hnd hge (fun q hq => hfree ▸ hd q hq)).2 q
+
+/-- Moving ids from pending to free keeps the invariant. -/
+theorem FLInv.move {f : FL} (hinv : FLInv f) (pending' : List (Txid × TxPending)) (moved : List Pgid)
+    (hperm : f.pendingIds.Perm (moved ++ pidsOf pending'))
+    (hkeys : (pending'.map (·.1)).Nodup) :
+    FLInv (({ f with pending := pending' } : FL).mergeSpans moved) ∧
+    (({ f with pending := pending' } : FL).mergeSpans moved).pending = pending' ∧
+    ∀ q, q ∈ (({ f with pending := pending' } : FL).mergeSpans moved).freeIds ↔ (q ∈ f.freeIds ∨ q ∈ moved) := by
+  have hnd : (moved ++ pidsOf pending').Nodup := hperm.nodup_iff.mp hinv.pending_nodup
+  rw [List.nodup_append] at hnd
+  obtain ⟨hnd1, hnd2, hnd3⟩ := hnd
+  have hsub : ∀ q ∈ moved, q ∈ f.pendingIds := fun q hq => hperm.mem_iff.mpr (List.mem_append_left _ hq)
+  have hsub' : ∀ q ∈ pidsOf pending', q ∈ f.pendingIds := fun q hq => hperm.mem_iff.mpr (List.mem_append_right _ hq)
+  have hf' : ({ f with pending := pending' } : FL).freeIds = f.freeIds := rfl
+  obtain ⟨h1, h2, h3⟩ := mergeSpans_spec (f := { f with pending := pending' }) hinv.array_sorted hinv.spans_wf
+    hnd1 (fun q hq => hinv.pending_ge2 q (hsub q hq))
+    (fun q hq hq' => hinv.disjoint q hq' (hsub q hq))
+  have hp := mergeSpans_pending ({ f with pending := pending' } : FL) moved
+  have hk := mergeSpans_kind ({ f with pending := pending' } : FL) moved
+  have hpi : (({ f with pending := pending' } : FL).mergeSpans moved).pendingIds = pidsOf pending' := by
+    rw [pendingIds_eq, hp]
+  refine ⟨⟨?_, ?_, ?_, ?_, ?_, ?_⟩, hp, h3⟩
+  · intro h; rw [hk] at h; exact h1 h
+  · intro h; rw [hk] at h; exact h2 h
+  · intro q hq
+    rw [hpi]
+    intro hq'
+    rcases (h3 q).mp hq with h | h
+    · exact hinv.disjoint q h (hsub' q hq')
+    · exact hnd3 q h q hq' rfl
+  · rw [hpi]; exact hnd2
+  · rw [hp]; exact hkeys
+  · rw [hpi]; intro q hq; exact hinv.pending_ge2 q (hsub' q hq)
+
+theorem mergeSpans_freeIds_eq {f : FL} (hinv : FLInv f) {ids : List Nat}
+    (hnd : ids.Nodup) (hdisj : ∀ q ∈ ids, q ∉ f.freeIds) (hge : ∀ q ∈ ids, 2 ≤ q) :
+    (f.mergeSpans ids).freeIds = mergeSorted f.freeIds (sortNat ids) := by
+  obtain ⟨h1, h2, h3⟩ := mergeSpans_spec hinv.array_sorted hinv.spans_wf hnd hge hdisj
+  have hk' := mergeSpans_kind f ids
+  apply sorted_ext
+  · cases hk : f.kind with
+    | array => rw [hk] at hk'; rw [freeIds_array hk']; exact (h1 hk).1
+    | hashmap => rw [hk] at hk'; rw [freeIds_hashmap hk']; exact spanIds_sorted (h2 hk)
+  · apply mergeSorted_sorted_lt hinv.freeIds_sorted (sortNat_sorted_lt hnd)
+    intro q hq hq'
+    exact hdisj q (mem_sortNat.mp hq') hq
+  · intro q
+    rw [h3 q, mem_mergeSorted, mem_sortNat]
+
 end Bolt.FL
